@@ -29,6 +29,9 @@ pub struct Solver {
     pub errors: Vec<String>,
     pub binary: String,
     pub timeout_ms: u64,
+    /// time limit of the current query (the per-query limit clamped to what is left of the job's budget)
+    pub eff_ms: u64,
+    pub deadline: Option<std::time::Instant>,
     pub log: Option<std::fs::File>,
 }
 
@@ -71,7 +74,7 @@ impl Solver {
     fn preamble(&self) -> String {
         let mut p = String::from("(set-option :print-success false)\n");
         if !self.binary.contains("cvc5") {
-            p.push_str(&format!("(set-option :timeout {})\n", self.timeout_ms));
+            p.push_str(&format!("(set-option :timeout {})\n", self.eff_ms));
         }
         p.push_str("(set-logic ALL)\n");
         p.push_str("(declare-fun uf_exp (Real) Real)\n(declare-fun uf_ln (Real) Real)\n(declare-fun uf_tanh (Real) Real)\n(declare-fun uf_pow (Real Real) Real)\n");
@@ -80,7 +83,7 @@ impl Solver {
     pub fn new(binary: &str, timeout_ms: u64) -> Solver {
         let (child, inp, out) = Solver::spawn(binary, timeout_ms);
         let log = std::env::var("SYMX_SMT_LOG").ok().map(|p| std::fs::File::create(p).unwrap());
-        let mut s = Solver { child, inp, out, frames: vec![String::new()], restarts: 0, marker: 0, queries: 0, sat: 0, unsat: 0, unknown: 0, time_s: 0.0, errors: vec![], binary: binary.to_string(), timeout_ms, log };
+        let mut s = Solver { child, inp, out, frames: vec![String::new()], restarts: 0, marker: 0, queries: 0, sat: 0, unsat: 0, unknown: 0, time_s: 0.0, errors: vec![], binary: binary.to_string(), timeout_ms, eff_ms: timeout_ms, deadline: None, log };
         let p = s.preamble();
         s.raw(&p);
         s
@@ -115,7 +118,7 @@ impl Solver {
     }
     fn line(&mut self) -> String {
         let _ = self.inp.flush();
-        match self.out.recv_timeout(Duration::from_millis(self.timeout_ms * 2 + 3000)) {
+        match self.out.recv_timeout(Duration::from_millis(self.eff_ms + self.eff_ms / 4 + 3000)) {
             Ok(l) => l,
             Err(RecvTimeoutError::Timeout) => {
                 self.restart();
@@ -188,6 +191,14 @@ impl Solver {
     pub fn check(&mut self, nvars: usize) -> Answer {
         let t0 = std::time::Instant::now();
         self.queries += 1;
+        if let Some(d) = self.deadline {
+            let left = d.saturating_duration_since(std::time::Instant::now()).as_millis() as u64;
+            let eff = self.timeout_ms.min(left.max(2000));
+            if eff != self.eff_ms && !self.binary.contains("cvc5") {
+                self.eff_ms = eff;
+                self.raw(&format!("(set-option :timeout {})\n", eff));
+            }
+        }
         self.raw("(check-sat)\n");
         let lines = self.until_marker();
         let verdict = lines.iter().find(|l| *l == "sat" || *l == "unsat" || *l == "unknown").cloned();
